@@ -177,6 +177,60 @@ def _sep_class(ctx, info):
     return a, s1, b, s2, c, digits
 
 
+
+def _leading(ctx, fn, e, depth=0):
+    """interpret the expression that extracts the leading number of the date string.
+    returns (set of separator characters removed/split on, whitespace_tolerated, defining fn, node) or raises AnalysisError."""
+    if isinstance(e, ast.Call) and isinstance(e.func, ast.Name) and e.func.id == 'int' and e.args:
+        a = e.args[0]
+        # form (a): t[:2].replace(c, '')...   -> int() tolerates surrounding blanks
+        stripped = set()
+        x = a
+        while isinstance(x, ast.Call) and isinstance(x.func, ast.Attribute) and x.func.attr in ('replace', 'strip'):
+            if x.func.attr == 'replace' and len(x.args) == 2 and const(x.args[1]) == '' and isinstance(const(x.args[0]), str):
+                stripped |= set(const(x.args[0]))
+            elif x.func.attr == 'strip':
+                stripped |= set(const(x.args[0])) if x.args and isinstance(const(x.args[0]), str) else {' '}
+            else:
+                raise AnalysisError('unrecognised leading-number idiom: %s' % U(e))
+            x = x.func.value
+        if isinstance(x, ast.Subscript) and isinstance(x.slice, ast.Slice) and x.slice.lower is None and const(x.slice.upper) == 2:
+            return stripped, True, fn, e
+        # form (b): re.split(CLASS, t, ...)[0]  /  t.split(c)[0]
+        if isinstance(a, ast.Subscript) and const(a.slice) == 0 and isinstance(a.value, ast.Call):
+            c = a.value
+            if isinstance(c.func, ast.Attribute) and c.func.attr == 'split' and U(c.func.value) in ('re', 're_'):
+                p = const(c.args[0])
+                if isinstance(p, str):
+                    info = regex_info(p)
+                    if len(info['items']) == 1 and info['items'][0].get('chars'):
+                        return set(info['items'][0]['chars']), False, fn, e
+            if isinstance(c.func, ast.Attribute) and c.func.attr == 'split' and len(c.args) >= 1 and isinstance(const(c.args[0]), str):
+                return {const(c.args[0])}, False, fn, e
+        # form (c): regex match group of leading digits
+        raise AnalysisError('unrecognised leading-number idiom: %s' % U(e))
+    if isinstance(e, ast.Call) and isinstance(e.func, ast.Name) and depth < 2:
+        g = ctx.repo.resolve_name(fn.mod, e.func.id)
+        from ..core import Fn as _Fn
+        if isinstance(g, _Fn):
+            rets = returns_of(g.node)
+            if len(rets) == 1 and rets[0].value is not None:
+                return _leading(ctx, g, rets[0].value, depth + 1)
+    raise AnalysisError('unrecognised leading-number idiom: %s' % U(e))
+
+
+def _rejection_operand(t, attr):
+    """the operand compared (!=) with res.<attr> in a rejection test, or None"""
+    for c2 in conjuncts(t):
+        if isinstance(c2, ast.Compare) and len(c2.ops) == 1 and isinstance(c2.ops[0], ast.NotEq):
+            a, b = c2.left, c2.comparators[0]
+            if U(a) == 'res.' + attr:
+                return b, c2
+            if U(b) == 'res.' + attr:
+                return a, c2
+    return None, None
+
+
 @obligation('C04.3', 'PATH+TABLES', '_dates:uk2dt, _dates:us2dt, ambiguity regex',
             'a day-month string that is unambiguous but written in the other dialect must be rejected with ValueError, not silently swapped',
             axioms=('A1',))
@@ -215,8 +269,11 @@ def c04_3(ctx):
         ctx.fail(fn, inner[0], 'an unambiguous date (day > 12) whose leading number is not the day is no longer rejected with ValueError')
     else:
         t1 = ch[1][0]
-        if not (isinstance(t1, ast.Compare) and isinstance(t1.ops[0], ast.NotEq) and 'res.day' in (U(t1.left), U(t1.comparators[0])) and 'int(' in U(t1)):
-            ctx.fail(fn, ch[1][1][0], 'UK rejection test is `%s`, expected leading number != res.day' % U(t1))
+        op, cmpn = _rejection_operand(t1, 'day')
+        if op is None:
+            ctx.fail(fn, ch[1][1][0], 'UK rejection test is `%s`, expected <leading number> != res.day' % U(t1))
+        else:
+            _leading(ctx, fn, op)   # must be an interpretable leading-number extraction (else ANALYSIS-ERROR)
     # us
     fn = ctx.repo.fn('_dates:us2dt')
     amb = [s for s in fn.body if isinstance(s, ast.If) and 'ambiguity.search' in U(s.test)]
@@ -224,9 +281,11 @@ def c04_3(ctx):
     ctx.count(1, fn.where(amb[0]))
     t = amb[0].test
     cj = conjuncts(t)
-    cmpc = [c2 for c2 in cj if isinstance(c2, ast.Compare) and 'res.month' in U(c2)]
-    if not cmpc or not isinstance(cmpc[0].ops[0], ast.NotEq) or 'int(' not in U(cmpc[0]):
-        ctx.fail(fn, amb[0], 'US rejection test is `%s`, expected leading number != res.month' % U(t))
+    op, cmpn = _rejection_operand(t, 'month')
+    if op is None:
+        ctx.fail(fn, amb[0], 'US rejection test is `%s`, expected <leading number> != res.month' % U(t))
+    else:
+        _leading(ctx, fn, op)
     if not any(isinstance(s, ast.Raise) and 'ValueError' in U(s) for s in amb[0].body):
         ctx.fail(fn, amb[0], 'a date not in US format is no longer rejected with ValueError')
     # dispatcher chooses by dialect
@@ -247,27 +306,22 @@ def c04_4(ctx):
     seps = set(s1.get('chars', set()))
     ctx.fact('separators_admitted', sorted(seps))
     n = 0
-    for name in ('uk2dt', 'us2dt'):
+    for name, attr in (('uk2dt', 'day'), ('us2dt', 'month')):
         fn = ctx.repo.fn('_dates:%s' % name)
-        for call in calls_in(fn.node, 'int'):
-            if not call.args or '[:2]' not in U(call.args[0]):
+        for t in [x.test for x in ast.walk(fn.node) if isinstance(x, ast.If)]:
+            op, cmpn = _rejection_operand(t, attr)
+            if op is None:
                 continue
             n += 1
-            stripped = set()
-            e = call.args[0]
-            while isinstance(e, ast.Call) and isinstance(e.func, ast.Attribute) and e.func.attr in ('replace', 'strip'):
-                if e.func.attr == 'replace' and len(e.args) == 2 and const(e.args[1]) == '' and isinstance(const(e.args[0]), str):
-                    stripped |= set(const(e.args[0]))
-                if e.func.attr == 'strip':
-                    stripped |= set(const(e.args[0])) if e.args and isinstance(const(e.args[0]), str) else {' '}
-                e = e.func.value
-            ctx.count(1, fn.where(call))
-            missing = {s for s in seps - stripped if not s.isspace()}
+            removed, ws_ok, where, node = _leading(ctx, fn, op)
+            ctx.count(1, where.where(node))
+            missing = {s for s in seps - removed if not (ws_ok and s.isspace())}
             if missing:
-                pm = parent_map(fn.node)
-                ctx.fail(fn, enclosing_stmt(pm, call), 'separator(s) %s admitted by the ambiguity regex are not stripped before int(): int(%r) raises' % (sorted(missing), '3' + sorted(missing)[0]),
-                         witness="dt('3%s15%s2000', dialect='us')" % (sorted(missing)[0], sorted(missing)[0]), stmt=call)
-    ctx.at_least(2, n, 'leading-number extractions')
+                pm = parent_map(where.node)
+                sep = sorted(missing)[0]
+                ctx.fail(where, enclosing_stmt(pm, node), 'separator(s) %s admitted by the ambiguity regex are not removed from the leading field before int(): a date written with %r dies in int() instead of being parsed or rejected' % (sorted(missing), sep),
+                         witness="dt('3%s15%s2000', dialect='us') / dt('13%s03%s2000')" % (sep, sep, sep, sep), stmt=node)
+    ctx.at_least(2, n, 'leading-number extractions compared with res.day / res.month')
 
 
 @obligation('C04.5', 'PATH dispatch', '_dates:dt, _dates:ymd',
